@@ -89,6 +89,24 @@ Section Dispatch.
     option_map (@o_region R) (occ_at o t) = option_map (@o_region R) (occ_at o t') /\ occ_at o t <> None.
   Proof. exact (time_invariant_region S R tstep place). Qed.
 
+  (* ---- obstacles with a history: update_initial_state installs the new initial state (occupancy = the shape placed
+     at it, at its time step; nothing else until a new prediction arrives), the initial_state setter likewise; after a
+     following update_prediction the main statement holds again and the state at the new initial time step is the new
+     initial state.  (Every theorem above is quantified over all obstacle values, i.e. over the result of any history;
+     that the implementation keeps no stale cache is what the correspondence checks on obstacles with histories.) *)
+  Theorem C04_after_update_initial_state : forall i ty init p st t,
+    occ_at (update_initial_state S R (Dynamic i ty init p) st) t =
+      (if Z.eqb t (tstep st) then Some (placed_at t st) else None) /\
+    st_at (update_initial_state S R (Dynamic i ty init p) st) t = (if Z.eqb t (tstep st) then Some st else None).
+  Proof. exact (after_update_initial_state S R tstep place). Qed.
+  Theorem C04_after_set_initial_state_static : forall i ty init st t,
+    occ_at (set_initial_state S R (Static i ty init) st) t = Some (placed_at t st).
+  Proof. exact (after_set_initial_state_static S R tstep place). Qed.
+  Theorem C04_after_update_then_prediction : forall i ty init p st tr t, consecutive tr = true ->
+    let o := set_prediction S R (update_initial_state S R (Dynamic i ty init p) st) (Some (PrTraj tr)) in
+    occ_at o t = option_map (placed_at t) (st_at o t) /\ st_at o (tstep st) = Some st.
+  Proof. exact (after_update_then_prediction S R tstep place). Qed.
+
   (* ---- scenario level: exactly what the per-obstacle answers imply *)
   (* Scenario.obstacles lists every stored obstacle exactly once *)
   Theorem C04_all_obstacles : forall obs : list (obstacle S R), Permutation (all_obstacles S R obs) obs.
@@ -292,6 +310,9 @@ Print Assumptions C04_dynamic_set_based.
 Print Assumptions C04_phantom.
 Print Assumptions C04_static.
 Print Assumptions C04_time_invariant_region.
+Print Assumptions C04_after_update_initial_state.
+Print Assumptions C04_after_set_initial_state_static.
+Print Assumptions C04_after_update_then_prediction.
 Print Assumptions C04_all_obstacles.
 Print Assumptions C04_occupancies_at_time_step.
 Print Assumptions C04_occupancies_negative_time.
